@@ -252,3 +252,40 @@ def sto2(a, i, j, v):
 
 def kind_sort(kind):
     return {'int': IntS, 'val': Val, 'bool': BoolS}[kind]
+
+
+# ---------------------------------------------------------------------------------------------
+# Trigger markers: uninterpreted predicates that are axiomatically true everywhere.  A contract
+# writes  forall(lambda r, c: implies(T2(r, c) and ..., ...))  to give the quantifier an
+# arithmetic-free E-matching pattern; because T2 is always true this does not change its meaning.
+T1f = z3.Function('T1', IntS, BoolS)
+T2f = z3.Function('T2', IntS, IntS, BoolS)
+
+
+def trigger_axioms():
+    a, b = z3.Ints('tg_a tg_b')
+    return [z3.ForAll([a], T1f(a), patterns=[T1f(a)]), z3.ForAll([a, b], T2f(a, b), patterns=[T2f(a, b)])]
+
+
+def find_triggers(body, vs):
+    found = []
+    ids = {v.get_id() for v in vs}
+
+    def walk(t):
+        if z3.is_app(t):
+            n = t.decl().name()
+            if n in ('T1', 'T2') and all(c.get_id() in ids for c in t.children()):
+                if not any(t.eq(f) for f in found):
+                    found.append(t)
+                return
+            for c in t.children():
+                walk(c)
+        elif z3.is_quantifier(t):
+            return
+    walk(body)
+    covered = set()
+    for f in found:
+        covered |= {c.get_id() for c in f.children()}
+    if found and covered >= ids:
+        return [found[0]] if len(found) == 1 else [z3.MultiPattern(*found)]
+    return []
